@@ -31,7 +31,12 @@ func (b *buffer) currentTag() Tag {
 
 // nextTag returns the next tag in tagBuffer
 func (b *buffer) nextTag() Tag {
-	return b.tag[b.pos+1]
+	if b.pos+1 < b.len {
+		return b.tag[b.pos+1]
+	}
+	// no pending tag after the current one; slots at and above len hold stale
+	// tags of earlier directories or earlier decodes (the buffer is pooled)
+	return Tag{}
 }
 
 // nextTag increments the position by 1
